@@ -20,7 +20,14 @@ META = {
             "discharged for the repaired UnifiedFileDiffer; refuted with witnesses for the shipped one, whose "
             "splitlines() comparison hides final-newline/CRLF/absent-vs-empty differences). Correspondence: Coq "
             "evaluates model==implementation and P_C19 on the real outputs of run_file_generators().new_files(), "
-            "PCDeployerJob.parse_result and pc_diff over synthesised generator classes in several listing orders.",
+            "PCDeployerJob.parse_result and pc_diff over synthesised generator classes in several listing orders. "
+            "Generators that do not produce a result (supports_device false, path() None or raising, "
+            "NotSupportedDevice from run() at once or after some lines, run() returning None) are in the model "
+            "(Model/FilesKinds.v): proved for every listing order that they contribute nothing, that the plan is the "
+            "argmax over the generators that produced a result (priorities need be distinct among those only) and "
+            "that the run fails iff a supporting generator returns None (C19_kinds_*); the same generator kinds are "
+            "driven through the real run_file_generators in all listing orders of small sets, including the "
+            "prio-descending order build_generators() produces.",
     "technique": "Coq induction over generator lists (running maximum, Permutation), association-list dict "
                  "equality; vm_compute differential check",
 }
@@ -32,6 +39,7 @@ SIGS = [
     "reload/missing-when-enabled", "reload/wrong-command", "reload/attached-when-disabled",
     "diff-empty/trailing-newline", "diff-empty/line-terminator", "diff-empty/absent-vs-empty",
     "diff-empty/other", "diff-shown-for-equal", "foreign-path",
+    "run-failed/no-broken-generator", "run-none/not-reported",
 ]
 WHAT = {
     "new-files/not-argmax": "new_files() is not the output/reload of the highest-priority generator per path",
@@ -46,6 +54,9 @@ WHAT = {
     "diff-empty/other": "pc_diff shows nothing although the line content differs",
     "diff-shown-for-equal": "pc_diff shows a file whose content is equal",
     "foreign-path": "a path that no winning generator planned appears in files/cmds/diff",
+    "run-failed/no-broken-generator": "run_file_generators/parse_result raised although every listed generator either "
+                                      "renders or turns the device down in a supported way",
+    "run-none/not-reported": "a generator supporting the device returned None from run() and the run went on silently",
 }
 
 # ------------------------------------------------------------------------------------ printers
@@ -87,6 +98,23 @@ def coutput(o: dict) -> str:
     dep = "None" if o["deploy"] is None else f"(Some ({ss(o['deploy']['files'])}, {ss(o['deploy']['cmds'])}))"
     diff = clist(cpair(cs(p), cbool(b)) for p, b in o["diff"])
     return f"(Out {nf(o['new'])} {nf(o['new_safe'])} {dep} {diff})"
+
+
+KINDS = {"ok": "KOk", "ok_yield": "KOk", "unsupported": "KUnsupported", "path_none": "KUnsupported",
+         "path_nsd": "KUnsupported", "nsd": "KDeclines", "nsd_late": "KDeclines", "run_none": "KNone"}
+K_IMPORTS = "From Annet Require Import Base.Str Model.Files Model.FilesKinds Spec.P_C19 Spec.P_C19K."
+K_TY = "kinput * option output"
+
+
+def ckinput(c: dict) -> str:
+    old = clist(cpair(cs(p), "None" if v is None else f"(Some {cs(v)})") for p, v in c["old"].items())
+    mode = {"no": "RNo", "yes": "RYes", "force": "RForce"}[c["mode"]]
+    ks = clist(f"(KGen {cgen(g)} {KINDS[g.get('kind', 'ok')]})" for g in c["gens"])
+    return f"(KIn {ks} {cbool(c['etck'])} {cbool(c['safe'])} {old} {mode})"
+
+
+def ckoutput(o: dict) -> str:
+    return "None" if "exc" in o else f"(Some {coutput(o)})"
 
 
 # ------------------------------------------------------------------------------------ generators
@@ -246,6 +274,72 @@ def gen_cases(ctx) -> list[dict]:
     return cases
 
 
+SILENT = ["unsupported", "path_none", "path_nsd", "nsd", "nsd_late"]
+
+
+def gen_kind_cases(ctx) -> list[dict]:
+    """Generators that do not produce a result, next to ones that do: random sets in several listing orders
+    (among them prio-descending, the order build_generators() lists them in, and prio-ascending), and all listing
+    orders x all kind assignments of small sets competing for one path."""
+    rng = ctx.rng("kinds")
+    modes = ["no", "yes", "force"]
+    cases: list[dict] = []
+    hist = {k: 0 for k in KINDS}
+    for _ in range(2500 if ctx.thorough else 260):
+        n = rng.choice([2, 2, 3, 3, 4, 5, 6])
+        gens = rand_gens(rng, n, PATHS[:rng.choice([1, 1, 2, 3])])
+        broken = rng.random() < 0.08
+        for g in gens:
+            r = rng.random()
+            g["kind"] = "ok" if r < 0.35 else "ok_yield" if r < 0.5 else rng.choice(SILENT)
+        if broken:
+            rng.choice(gens)["kind"] = "run_none"
+        if rng.random() < 0.3 and n >= 2:
+            # a generator that produces nothing with the prio (and path) of one that does: inside the guard of
+            # C19_kinds_argmax (distinct among producers), outside "distinct among all listed"
+            a, b = rng.sample(range(n), 2)
+            gens[a]["kind"] = rng.choice(SILENT)
+            gens[b]["kind"] = "ok"
+            gens[a]["prio"], gens[a]["path"] = gens[b]["prio"], gens[b]["path"]
+        old = rand_old(rng, [g for g in gens if g["kind"] in ("ok", "ok_yield")])
+        etck = rng.random() < 0.25
+        by_prio = sorted(gens, key=lambda g: -g["prio"])
+        sh = list(gens)
+        rng.shuffle(sh)
+        seen = set()
+        safe, mode = rng.random() < 0.3, rng.choice(modes)
+        for o in (by_prio, list(reversed(by_prio)), list(gens), sh):
+            k = core.canon_hash(o)
+            if k in seen:
+                continue
+            seen.add(k)
+            cases.append({"gens": o, "etck": etck, "safe": safe, "old": old, "mode": mode, "src": "kinds-random"})
+    n_rand = len(cases)
+    erng = ctx.rng("kinds-exh")
+    kinds3 = ["ok", "nsd", "unsupported"] if not ctx.thorough else ["ok", "ok_yield", "nsd", "nsd_late", "unsupported",
+                                                                     "path_none"]
+    for n in (2, 3):
+        for _ in range(2 if ctx.thorough else 1):
+            prios = erng.sample([1, 2, 3, 5, 8, 100, 200], n)
+            base = [{"path": PATHS[0], "prio": prios[i], "out": ["a\n", "b\n", "a\nb\n"][i],
+                     "reload": erng.choice(["", "rl"]), "safe": erng.random() < 0.5} for i in range(n)]
+            for ks in itertools.product(kinds3 + (["run_none"] if n == 2 else []), repeat=n):
+                gens = [dict(g, kind=k) for g, k in zip(base, ks)]
+                for perm in itertools.permutations(gens):
+                    for o in (None, "a\n"):
+                        cases.append({"gens": list(perm), "etck": False, "safe": False, "old": {PATHS[0]: o},
+                                      "mode": erng.choice(modes), "src": "kinds-exhaustive"})
+    for c in cases:
+        for g in c["gens"]:
+            hist[g.get("kind", "ok")] += 1
+    ctx.coverage["kinds_distribution"] = {
+        "random": n_rand, "exhaustive": len(cases) - n_rand, "generators_by_kind": hist,
+        "exhaustive_scope": f"all listing orders x all kind assignments over {kinds3} of 2 and 3 generators "
+                            "competing for one path (2 generators: also run_none)",
+    }
+    return cases
+
+
 def payload(c: dict) -> dict:
     return {k: c[k] for k in ("gens", "etck", "safe", "old", "mode")}
 
@@ -259,7 +353,7 @@ PREDS = {
     "holds": "fun c => negb (wf_C19 (fst c)) || P_C19 (fst c) (snd c)",
     "outside_guard": "fun c => wf_C19 (fst c)",
 }
-def classify(terms: list[str], tag: str) -> list[list[str]]:
+def classify(terms: list[str], tag: str, imports: str = IMPORTS, ty: str = TY, fn: str = "sig_codes") -> list[list[str]]:
     """Coq computes, once per failing case, the labels of the violated clauses (Spec.P_C19.sigs_C19)."""
     d = core.BUILD / "cases" / ID / tag
     d.mkdir(parents=True, exist_ok=True)
@@ -268,10 +362,10 @@ def classify(terms: list[str], tag: str) -> list[list[str]]:
     per_file = 400
     for k in range(0, len(terms), per_file):
         body = ";\n".join(f"({i}%nat, {terms[i]})" for i in range(k, min(len(terms), k + per_file)))
-        txt = (core.CASE_HEADER.split("{imports}")[0] + IMPORTS + "\n"
+        txt = (core.CASE_HEADER.split("{imports}")[0] + imports + "\n"
                + f"Definition names : list string := {names}.\n"
-               + f"Definition cases : list (nat * ({TY})) := [\n{body}\n].\n"
-               + "Eval vm_compute in (map (fun c => (fst c, sig_codes names (fst (snd c)) (snd (snd c)))) cases).\n")
+               + f"Definition cases : list (nat * ({ty})) := [\n{body}\n].\n"
+               + f"Eval vm_compute in (map (fun c => (fst c, {fn} names (fst (snd c)) (snd (snd c)))) cases).\n")
         f = d / f"sigs_{k // per_file}.v"
         f.write_text(txt)
         files.append(f)
@@ -311,6 +405,27 @@ def evaluate(cases: list[dict], outs: list[dict], tag="cases"):
         for j, ls in zip(res["holds"], labels):
             sigs[ok_idx[j]] = ls
     res = {k: [ok_idx[j] for j in v] for k, v in res.items()}
+    return res, sigs
+
+
+K_PREDS = {
+    "agree_lines": "fun c => koutput_eqb (k_model differ_lines (fst c)) (snd c)",
+    "agree_exact": "fun c => koutput_eqb (k_model differ_exact (fst c)) (snd c)",
+    "holds": "fun c => negb (wf_C19K (fst c)) || P_C19K (fst c) (snd c)",
+    "outside_guard": "fun c => wf_C19K (fst c)",
+}
+
+
+def evaluate_k(cases: list[dict], outs: list[dict], tag="kinds"):
+    """the same for the inputs with generator kinds; an exception of the implementation is the outcome None"""
+    terms = [cpair(ckinput(c), ckoutput(o)) for c, o in zip(cases, outs)]
+    res = core.run_case_files(ID, K_TY, K_IMPORTS, K_PREDS, terms, per_file=300, tag=tag) if terms else \
+        {k: [] for k in K_PREDS}
+    sigs: dict[int, list[str]] = {}
+    if res["holds"]:
+        labels = classify([terms[j] for j in res["holds"]], tag + "_sigs", K_IMPORTS, K_TY, "ksig_codes")
+        for j, ls in zip(res["holds"], labels):
+            sigs[j] = ls
     return res, sigs
 
 
@@ -369,6 +484,37 @@ def run(ctx):
                                       "PCDeployerJob.parse_result / pc_diff",
                     "case": payload(cases[i]), "impl": outs[i]}, no_input=True))
     ctx.notes.append(f"differ variant matched by the implementation: {variant}")
+
+    # --- generators that do not produce a result (Model/FilesKinds.v, P_C19K)
+    kcases = gen_kind_cases(ctx)
+    kouts = core.run_impl_sharded("c19_runner.py", [payload(c) for c in kcases])
+    kres, ksigs = evaluate_k(kcases, kouts)
+    for i in kres["holds"]:
+        for s in ksigs.get(i) or ["unclassified"]:
+            ctx.add_violation(core.Violation(
+                signature=f"C19/{s}", what=what_of(s) + " (some listed generators produce no result for the device)",
+                replay={"case": payload(kcases[i]), "impl": kouts[i], "violated": ksigs.get(i, [])}))
+    koutside = set(kres["outside_guard"])
+    kdis = min(([i for i in kres["agree_lines"] if i not in koutside],
+                [i for i in kres["agree_exact"] if i not in koutside]), key=len)
+    if kdis and not kres["holds"]:
+        i = kdis[0]
+        ctx.add_violation(core.Violation(
+            signature="C19/model-impl-disagree/kinds",
+            what=f"Coq model (Model.FilesKinds.k_model) and the implementation differ on {len(kdis)} cases with "
+                 "generators that produce no result; no property violation found among the explored cases",
+            replay={"correspondence": "Model.FilesKinds.k_model vs run_file_generators().new_files / "
+                                      "PCDeployerJob.parse_result / pc_diff",
+                    "case": payload(kcases[i]), "impl": kouts[i]}, no_input=True))
+    khist = {"run_failed": sum("exc" in o for o in kouts),
+             "winner_is_not_top_listed_prio": 0, "some_generator_silent": 0, "holds_false": len(kres["holds"])}
+    for c, o in zip(kcases, kouts):
+        silent = [g for g in c["gens"] if g.get("kind", "ok") in SILENT and g["path"]]
+        khist["some_generator_silent"] += bool(silent)
+        prod = [g for g in c["gens"] if g.get("kind", "ok") in ("ok", "ok_yield")]
+        khist["winner_is_not_top_listed_prio"] += any(
+            any(h["path"] == g["path"] and h["prio"] < g["prio"] for h in prod) and
+            not any(h["path"] == g["path"] and h["prio"] > g["prio"] for h in prod) for g in silent)
     tie_dis = min(len([i for i in res["agree_lines"] if i in outside]),
                   len([i for i in res["agree_exact"] if i in outside]))
     ctx.notes.append(f"outside the guard (equal priorities): model and implementation agree on "
@@ -393,13 +539,17 @@ def run(ctx):
         if contested or (o["deploy"] and len(o["new"]) > len(o["deploy"]["files"])):
             nontrivial += 1
     ctx.coverage.update({
-        "evaluations": len(cases),
+        "evaluations": len(cases) + len(kcases),
+        "kinds_evaluations": len(kcases),
+        "kinds_outcome_histogram": khist,
+        "kinds_disagreements_checked": len(kdis),
+        "kinds_cases_outside_guard_wf_C19K": len(koutside),
         "distinct_nontrivial": nontrivial,
         "rule": "distinct by (generators in listing order, device flavour, acl_safe, old map, reload mode); "
                 "non-trivial = at least two generators compete for one path, or some planned files are uploaded "
                 "and some are not",
         "samples": [{"input": payload(c), "impl": o} for c, o in list(zip(cases, outs))[:3]],
-        "traces_validated_against_impl": len(cases),
+        "traces_validated_against_impl": len(cases) + len(kcases),
         "disagreements_checked": min(len(dis_lines), len(dis_exact)),
         "outcome_histogram": hist,
         "differ_variant": variant,
@@ -411,6 +561,8 @@ def run(ctx):
         "difflib.unified_diff(a, b) is empty iff a == b (only the header of a non-empty diff is modelled)",
         "file contents are ASCII (str.splitlines boundaries \\n \\r \\r\\n \\v \\f \\x1c-\\x1e modelled)",
         "JSON_FRAGMENT generators are outside C19 (none are given)",
+        "generator kinds: any exception leaving run_file_generators/parse_result is the outcome 'run failed' (None) "
+        "of Model.FilesKinds.k_model, whatever its type",
     ]
 
 
@@ -418,6 +570,11 @@ def replay(ctx, doc):
     c = doc["replay"]["case"]
     out = core.run_impl("c19_runner.py", [payload(c)])[0]
     print("impl:", out)
+    if any(g.get("kind", "ok") != "ok" for g in c["gens"]):
+        res, sigs = evaluate_k([c], [out], tag="replay")
+        print("holds:", not res["holds"], "violated clauses:", sigs.get(0, []),
+              "agrees with differ_lines:", not res["agree_lines"], "differ_exact:", not res["agree_exact"])
+        return 1 if res["holds"] else 0
     if "exc" in out:
         return 1
     res, sigs = evaluate([c], [out], tag="replay")
